@@ -170,7 +170,9 @@ CHECKS = {
              "(rounding never accumulates); nudge shifts every later ideal time by exactly x. Correspondence incl. long runs.",
         design="DESIGN.md §3 C01",
         note=SCHED_NOTE + " The closed form is proved for the clock part of Track.tick (pull loop + time increment); solo_clock "
-             "and C07.non_interference tie it to the track as it evolves inside a timeline tick (tracks without callbacks); floats "
+             "and C07.non_interference tie it to the track as it evolves inside a timeline tick, and onset_in_a_multitrack_run "
+             "(the onset invariant carried along the track's own trajectory of C07.run_is_merge) states the closed form for a track "
+             "playing inside a timeline with any other tracks, for every run length (tracks without callbacks, fault-free world); floats "
              "are outside the model: the drift of the implementation's accumulated times showed in the long correspondence runs "
              "(tick 100 000 at 24 PPQN) and was repaired (fb10b52: time from the tick count; cbcd7cb: compensated summation of event "
              "times); the long runs (up to 2.1*10^6 ticks, exact and inexact durations) now follow the closed form, which for "
